@@ -14,6 +14,8 @@ use std::sync::{Arc, Mutex};
 
 /// salience pool: three ordinary values and the two extremes (one add in ten draws an extreme)
 const SAL: [i32; 5] = [0, 5, -3, i32::MAX, i32::MIN];
+/// saliences written into GRL text (the GRL reader's handling of a minus sign is the parser's business, not C15's)
+const GSAL: [i32; 3] = [0, 5, 7];
 
 #[derive(Clone, Debug, Serialize, Deserialize, PartialEq)]
 pub enum KOp {
@@ -35,6 +37,10 @@ pub enum KOp {
     /// 3 clear): for the shared knowledge base this is a read — the copy is a knowledge base of its own, and
     /// nothing done to it may show in the original's rules, lookups or version
     CloneMutate { kind: u8, name: u8, sal: u8, uid: u32 },
+    /// `add_rules_from_grl(text)` with 1-3 rules (name, salience) in one text — names may repeat inside the text.
+    /// The call is a sequence of add_rule calls that stops at the first rejected one; it is generated in the
+    /// sequential prefix and in one-thread workloads only, where that is also its meaning as one operation
+    AddGrl { items: Vec<(u8, u8)> },
 }
 
 #[derive(Clone, Debug, Serialize, Deserialize)]
@@ -72,8 +78,16 @@ fn view(r: &Rule) -> (String, i32, bool, String) {
     (r.name.clone(), r.salience, r.enabled, r.description.clone().unwrap_or_default())
 }
 
+fn grl_text(items: &[(u8, u8)]) -> String {
+    items.iter().map(|(n, s)| format!("rule \"{}\" salience {} {{\n  when\n    F.x == 1\n  then\n    F.y = 1;\n}}\n", rname(*n), GSAL[*s as usize % 3])).collect()
+}
+
 fn apply_real(kb: &KnowledgeBase, op: &KOp) -> Res {
     match op {
+        KOp::AddGrl { items } => match kb.add_rules_from_grl(&grl_text(items)) {
+            Ok(n) => Res::Num(n as u64),
+            Err(_) => Res::AddDup,
+        },
         KOp::Add { name, sal, uid } => match kb.add_rule(mk_rule(*name, *sal, *uid)) {
             Ok(()) => Res::AddOk,
             Err(_) => Res::AddDup,
@@ -125,6 +139,18 @@ pub struct Model {
 impl Model {
     fn apply(&mut self, op: &KOp) -> Res {
         match op {
+            KOp::AddGrl { items } => {
+                for (name, sal) in items {
+                    let n = rname(*name);
+                    if self.rules.iter().any(|r| r.0 == n) {
+                        return Res::AddDup; // the rules before it stay, this one and the rest are not added
+                    }
+                    self.rules.push((n, GSAL[*sal as usize % 3], true, String::new()));
+                    self.rules.sort_by_key(|r| std::cmp::Reverse(r.1));
+                    self.version += 1;
+                }
+                Res::Num(items.len() as u64)
+            }
             KOp::Add { name, sal, uid } => {
                 let n = rname(*name);
                 if self.rules.iter().any(|r| r.0 == n) {
@@ -316,6 +342,10 @@ pub fn scenario(w: &KbWorkload, slot: &Shared) {
     if h.iter().any(|e| matches!(e.op, KOp::CloneMutate { .. })) {
         count(slot, "probe.copy_of_the_knowledge_base_changed");
     }
+    let repeats = |items: &Vec<(u8, u8)>| items.iter().enumerate().any(|(i, a)| items[..i].iter().any(|b| b.0 == a.0));
+    if w.initial.iter().chain(w.threads.iter().flatten()).any(|o| matches!(o, KOp::AddGrl { items } if repeats(items))) {
+        count(slot, "probe.grl_text_with_a_repeated_rule_name");
+    }
 }
 
 fn fail(slot: &Shared, clause: &str, sig: &str, msg: String) -> ! {
@@ -351,6 +381,12 @@ pub fn generate(rng: &mut Rng, thorough: bool) -> KbWorkload {
     let nthreads = *rng.pick(&[1usize, 2, 2, 2, 3, 3]);
     let per = if nthreads == 1 { 1 + rng.usize(8) } else { 1 + rng.usize(if thorough { 4 } else { 4 }) };
     let mut initial: Vec<KOp> = (0..rng.usize(4)).map(|_| gen_op(rng)).collect();
+    // rules loaded from GRL text, several to a text (sequential prefix and one-thread workloads)
+    let gen_grl = |rng: &mut Rng| KOp::AddGrl { items: (0..1 + rng.usize(3)).map(|_| (rng.below(4) as u8, rng.below(3) as u8)).collect() };
+    if rng.chance(1, 10) {
+        let at = rng.usize(initial.len() + 1);
+        initial.insert(at, gen_grl(rng));
+    }
     // one workload in twelve starts from a large knowledge base (21-40 further rules with salience ties):
     // sorting and index maintenance behave differently on long vectors than on four entries
     if rng.chance(1, 12) {
@@ -360,7 +396,11 @@ pub fn generate(rng: &mut Rng, thorough: bool) -> KbWorkload {
         }
         initial.push(KOp::GetRules);
     }
-    let threads = (0..nthreads).map(|_| (0..per).map(|_| gen_op(rng)).collect()).collect();
+    let mut threads: Vec<Vec<KOp>> = (0..nthreads).map(|_| (0..per).map(|_| gen_op(rng)).collect()).collect();
+    if nthreads == 1 && rng.chance(1, 4) {
+        let at = rng.usize(threads[0].len() + 1);
+        threads[0].insert(at, gen_grl(rng));
+    }
     KbWorkload { initial, threads }
 }
 
